@@ -236,6 +236,12 @@ theorem fanOut_same (k : AKind) (q : Qid) (s : State) (ps : List Peer) (outs : L
   | nil => exact h0
   | cons p ps ih => simp only [fanOut]; exact ih _ _ (h0.trans (osd_same ..))
 
+theorem inbound_engine (s : State) (p : Peer) : (inbound s p).engine = s.engine := by
+  unfold inbound; split <;> rfl
+
+theorem inbound_same (s : State) (p : Peer) : SameLedger s (inbound s p) := by
+  unfold inbound; split <;> exact ⟨rfl, rfl, rfl, rfl, rfl⟩
+
 theorem execResult_same (s : State) (f : Fut) (r : Res) :
     (execResult s f r).events = s.events ∧ (execResult s f r).started = s.started ∧
     (execResult s f r).nextQid = s.nextQid ∧ (execResult s f r).successLog = s.successLog := by
@@ -604,6 +610,12 @@ theorem Ledger.step {s s' : State} (h : Ledger s) {l : Label} (hstep : step s l 
     injection hstep with hstep; subst hstep
     have hs := execResult_same s f r
     exact h.of_same' hs.1 hs.2.1 hs.2.2.1 (execResult_ids ..)
+  | inbound p =>
+    injection hstep with hstep; subst hstep
+    exact h.of_same (inbound_same ..) (by rw [inbound_engine])
+  | inboundFailed p =>
+    injection hstep with hstep; subst hstep
+    exact h.of_same (disconnectPeer_same ..) (disconnectPeer_shrinks _ _ _ _ (.refl _)).ids
 
 theorem Ledger.reachable {s : State} (h : Reachable s) : Ledger s := by
   induction h with
@@ -616,7 +628,7 @@ abbrev SendLog := List (Qid × Peer × FKind)
 
 def TrackerOk (sr : SendLog) (q : Qid) (t : Tracker) : Prop :=
   t.counted.length = t.nSucceeded ∧ t.peersToSucceed = clampQuorum t.quorum t.nTargets ∧ t.counted.Nodup ∧
-  (∀ p ∈ t.counted, p ∉ t.pending) ∧ (∀ p ∈ t.counted, ∃ k, (q, p, k) ∈ sr)
+  (∀ p ∈ t.counted, p ∉ t.pending) ∧ (∀ p ∈ t.counted, ∃ k, k ≠ .reqResp ∧ (q, p, k) ∈ sr)
 
 def StOk (sr : SendLog) (q : Qid) : QState → Prop
   | .tracker _ t => TrackerOk sr q t
@@ -626,7 +638,7 @@ def EngOk (sr : SendLog) (e : Engine) : Prop := ∀ x ∈ e, StOk sr x.id x.st
 
 def LogOk (sr : SendLog) (l : List SuccessRec) : Prop :=
   ∀ r ∈ l, clampQuorum r.quorum r.nTargets ≤ r.counted.length ∧ r.counted.Nodup ∧
-    ∀ p ∈ r.counted, ∃ k, (r.q, p, k) ∈ sr
+    ∀ p ∈ r.counted, ∃ k, k ≠ .reqResp ∧ (r.q, p, k) ∈ sr
 
 structure QuorumInv (s : State) : Prop where
   eng : EngOk s.sendResults s.engine
@@ -638,7 +650,7 @@ theorem StOk.mono {sr sr' : SendLog} (h : ∀ x ∈ sr, x ∈ sr') {q : Qid} {st
   | lookup => trivial
   | tracker b t =>
     obtain ⟨h1, h2, h3, h4, h5⟩ := hs
-    exact ⟨h1, h2, h3, h4, fun p hp => let ⟨k, hk⟩ := h5 p hp; ⟨k, h _ hk⟩⟩
+    exact ⟨h1, h2, h3, h4, fun p hp => let ⟨k, hk, hm⟩ := h5 p hp; ⟨k, hk, h _ hm⟩⟩
 
 theorem StOk.respDone {sr : SendLog} {q : Qid} {st : QState} (p : Peer) (hs : StOk sr q st) :
     StOk sr q (st.respDone p) := by
@@ -660,7 +672,7 @@ theorem StOk.sendFail {sr : SendLog} {q : Qid} {st : QState} (p : Peer) (hs : St
     · exact ⟨h1, h2, h3, h4, h5⟩
 
 theorem StOk.sendOk {sr : SendLog} {q : Qid} {st : QState} (p : Peer) (hs : StOk sr q st)
-    (hw : ∃ k, (q, p, k) ∈ sr) : StOk sr q (st.sendOk p) := by
+    (hw : p ∈ st.pending → st.isLookup = false → ∃ k, k ≠ .reqResp ∧ (q, p, k) ∈ sr) : StOk sr q (st.sendOk p) := by
   cases st with
   | lookup => trivial
   | tracker b t =>
@@ -677,7 +689,7 @@ theorem StOk.sendOk {sr : SendLog} {q : Qid} {st : QState} (p : Peer) (hs : StOk
         · exact h4 p' hp' hf.1
       · intro p' hp'
         rcases List.mem_cons.mp hp' with rfl | hp'
-        · exact hw
+        · exact hw hp rfl
         · exact h5 p' hp'
     · exact ⟨h1, h2, h3, h4, h5⟩
 
@@ -689,6 +701,14 @@ theorem EngOk.updQ {sr : SendLog} {e : Engine} (h : EngOk sr e) (q : Qid) (f : Q
   · rw [hid, hst]; exact h x hx
   · rw [hid, hst, hq]; exact hf _ (hq ▸ h x hx)
 
+theorem EngOk.updQ' {sr : SendLog} {e : Engine} (h : EngOk sr e) (q : Qid) (f : QState → QState)
+    (hf : ∀ x ∈ e, x.id = q → StOk sr q x.st → StOk sr q (f x.st)) : EngOk sr (Coordinator.updQ e q f) := by
+  intro x' hx'
+  obtain ⟨x, hx, hid, _, hst⟩ := mem_updQ hx'
+  rcases hst with ⟨_, hst⟩ | ⟨hq, hst⟩
+  · rw [hid, hst]; exact h x hx
+  · rw [hid, hst, hq]; exact hf x hx hq (hq ▸ h x hx)
+
 theorem EngOk.shrinks {sr : SendLog} {e e' : Engine} (hs : Shrinks e e') (h : EngOk sr e) : EngOk sr e' := by
   induction hs with
   | refl => exact h
@@ -699,7 +719,7 @@ theorem EngOk.mono {sr sr' : SendLog} (hm : ∀ x ∈ sr, x ∈ sr') {e : Engine
   fun x hx => (h x hx).mono hm
 
 theorem LogOk.mono {sr sr' : SendLog} (hm : ∀ x ∈ sr, x ∈ sr') {l : List SuccessRec} (h : LogOk sr l) : LogOk sr' l :=
-  fun r hr => ⟨(h r hr).1, (h r hr).2.1, fun p hp => let ⟨k, hk⟩ := (h r hr).2.2 p hp; ⟨k, hm _ hk⟩⟩
+  fun r hr => ⟨(h r hr).1, (h r hr).2.1, fun p hp => let ⟨k, hk, hmem⟩ := (h r hr).2.2 p hp; ⟨k, hk, hm _ hmem⟩⟩
 
 theorem QuorumInv.of_shrinks {s s' : State} (h : QuorumInv s) (hs : SameLedger s s')
     (he : Shrinks s.engine s'.engine) : QuorumInv s' :=
@@ -827,7 +847,11 @@ theorem QuorumInv.engineStep {s s' : State} (h : QuorumInv s) {act : EAct} {outs
       · exact absurd hstep (by simp)
     · exact absurd hstep (by simp)
 
-theorem QuorumInv.step {s s' : State} (h : QuorumInv s) {l : Label} (hstep : step s l = some s') : QuorumInv s' := by
+/-- `hNoReq` (an invariant, `LInv.noReq` in `CoordinatorQuorum.lean`): no request/response future of a query
+is in flight for a peer its tracker waits for. -/
+theorem QuorumInv.step {s s' : State} (h : QuorumInv s)
+    (hNoReq : ∀ x ∈ s.engine, x.st.isLookup = false → ∀ p ∈ x.st.pending, (⟨p, x.id, .reqResp⟩ : Fut) ∉ s.futs)
+    {l : Label} (hstep : step s l = some s') : QuorumInv s' := by
   cases l with
   | cmd c => injection hstep with hstep; subst hstep; exact h.command c
   | engine a outs => exact h.engineStep hstep
@@ -850,15 +874,21 @@ theorem QuorumInv.step {s s' : State} (h : QuorumInv s) {l : Label} (hstep : ste
     injection hstep with hstep; subst hstep
     have hs := execResult_same s f r
     have hm := execResult_sendResults_mono s f r
-    rcases execResult_engine s f r with he | ⟨_, _, he, hsr⟩
+    rcases execResult_engine s f r with he | ⟨hfm, _, he, hsr⟩
     · exact ⟨(h.eng.mono hm).shrinks he, by rw [hs.2.2.2]; exact h.log.mono hm⟩
     · refine ⟨?_, by rw [hs.2.2.2]; exact h.log.mono hm⟩
-      refine EngOk.shrinks he ((h.eng.mono hm).updQ f.q _ (fun st hst => hst.sendOk f.peer ⟨f.kind, ?_⟩))
-      rw [hsr]; exact List.mem_cons_self
-
-theorem QuorumInv.reachable {s : State} (h : Reachable s) : QuorumInv s := by
-  induction h with
-  | init => exact ⟨fun _ hx => absurd hx (by simp), fun _ hr => absurd hr (by simp)⟩
-  | step l _ hstep ih => exact ih.step hstep
+      refine EngOk.shrinks he ((h.eng.mono hm).updQ' f.q _ (fun x hx hxq hst =>
+        hst.sendOk f.peer (fun hp hlk => ⟨f.kind, ?_, ?_⟩)))
+      · intro hk
+        apply hNoReq x hx hlk f.peer hp
+        rw [hxq, ← hk]
+        exact hfm
+      · rw [hsr]; exact List.mem_cons_self
+  | inbound p =>
+    injection hstep with hstep; subst hstep
+    exact h.of_shrinks (inbound_same ..) (by rw [inbound_engine]; exact .refl _)
+  | inboundFailed p =>
+    injection hstep with hstep; subst hstep
+    exact h.of_shrinks (disconnectPeer_same ..) (disconnectPeer_shrinks _ _ _ _ (.refl _))
 
 end Litep2pVerif.Kad.Coordinator
